@@ -1,7 +1,6 @@
 SPECIFICATION Spec
 CONSTANTS
   MaxPat = 2
-  FixD13 = FALSE
-  StrictPaths = FALSE
+  FixEmptyDest = TRUE
 CHECK_DEADLOCK FALSE
 INVARIANT TableRow
